@@ -79,6 +79,18 @@ def generate(tier, seed):
         reqs.append("(seq-reduce (lambda (acc x) (tick 3) (cons x acc)) %s nil)" % q)
         reqs.append("(seq-reduce 'cons %s 'init)" % q)
         reqs.append("(seq-reduce '+ '(1 2 3 4) 0)")
+    # n-ary append: every combination of short lists (empty ones in every position), a non-list only allowed last
+    shorts = ["nil", "'()", "'(1)", "'(a b)", "'((x))", "(list 1 2)"]
+    import itertools as _it
+    for k in (3, 4):
+        combos = list(_it.product(shorts, repeat=k))
+        if tier == "quick" and k == 4: combos = rng.sample(combos, 300)
+        for t in combos:
+            reqs.append("(append %s)" % " ".join(t))
+            if rng.random() < 0.3: reqs.append("(length (append %s))" % " ".join(t))
+            if rng.random() < 0.15: reqs.append("(append %s 'tail)" % " ".join(t))
+            if rng.random() < 0.1: reqs.append("(append %s 5 %s)" % (t[0], " ".join(t[1:])))
+    reqs += ["(append)", "(append nil)", "(append nil nil)", "(append '(1) 2)", "(append '(1) 2 '(3))", "(append 1)", "(append 1 '(2))", "(append nil 3)"]
     # assoc / alist-get / plist-get
     keys = ["a", "b", "c", "1", '"s"', ":k", "(1 2)", "nil", "2.5"]
     for _ in range(1500 if tier == "quick" else 25000):
